@@ -232,8 +232,9 @@ def run_case(case):
     key = c01.ser_key(case)
     if key in _cache:
         return _cache[key]
-    if len(_cache) > 4:
-        _cache.clear()
+    # no eviction: the order in which the real controller takes independent statements depends on the
+    # addresses of the statement objects (frozenset of objects hashed by identity), so a second run of the
+    # same case in this process may fail at a different prefix; impl, model_input and oracle must see ONE run
     code = c01.build_code(case)
     res = {}
     for kind in ("interp", "gen"):
